@@ -31,6 +31,8 @@ import sys
 import time
 import z3
 sys.path.insert(0, os.path.dirname(os.path.abspath(__file__)))
+# bound on the number of children / elements per node; the thorough tier of the driver raises it
+DEPTH = int(os.environ.get("MIRSYM_DEPTH", "3"))
 from mirsym import Engine, parse_mir, STD_MODELS, Unsupported, PanicFound, Ref, Opaque, is_sym
 
 
@@ -281,7 +283,7 @@ def main():
         run({"value": "Function"}, V("Function", ("arc", ("abs_string", "f")), ("None",)), {}, judge_function)
 
         # ---- lists
-        for n in range(0, 4):
+        for n in range(0, DEPTH + 1):
             for bad in [None] + list(range(n)):
                 children = [("child", j) for j in range(n)]
                 results = {j: (errdoc(j) if bad == j else okdoc(j)) for j in range(n)}
